@@ -1,13 +1,16 @@
 """Which contract modules carry obligations for which property."""
 _CODECS = ["contracts.at4_ctrl_status", "contracts.at5_ext"]
-_SOCK = ["contracts.sock_queue"]
+_SOCK = ["contracts.sock_queue", "contracts.sock_conn"]
 MODULES = {
     "C01": _SOCK,
     "C02": _SOCK,
     "C03": ["contracts.c06_crc"] + _CODECS,
     "C04": _CODECS,
     "C05": _CODECS,
-    "C06": ["contracts.c06_crc"],
+    "C06": ["contracts.c06_crc"] + _SOCK,
+    "C07": _SOCK,
+    "C13": _SOCK,
+    "C15": _SOCK,
     "C16": _SOCK,
-    "C17": _CODECS,
+    "C17": _CODECS + _SOCK,
 }
